@@ -38,6 +38,8 @@ def gen_cases(rng, tier):
             c.update(r_oo=r_oo, r_oi=r_oi, r_io=r_io, r_ii=r_io * 0.85)
             if rng.random() < 0.6:           # insulated centre pipe / enhanced outer pipe: different conductivities
                 c.update(kp_in=rng.choice([0.1, 0.2, 0.4]), kp_out=rng.choice([0.4, 0.6, 1.5]))
+            if rng.random() < 0.5:
+                c["via_manager"] = True
         cs.append(c)
     # double U-tubes at low flow (laminar in the tubes): the equivalent pipe conductivity is then far below k_p'
     for k in range(6 if tier == "quick" else 30):
@@ -48,6 +50,15 @@ def gen_cases(rng, tier):
                    "s": min(0.02, 2 * (rb - 2 * ro) - 0.006)})
         if cs[-1]["fluid"] != "water":
             cs[-1]["conc"] = 20.0
+    # coaxial exchangers whose annulus flow is laminar or transitional (the film coefficients of the two walls of the annulus differ there)
+    for k in range(4 if tier == "quick" else 20):
+        r_oo = rng.choice([0.055, 0.05, 0.045])
+        r_oi = r_oo * 0.9
+        r_io = r_oi * rng.choice([0.5, 0.55, 0.6])
+        fl = rng.choice(["water", "water", "propyleneglycol"])
+        cs.append({"rb": r_oo + rng.choice([0.01, 0.02]), "H": rng.choice([60.0, 100.0, 200.0]), "kg": rng.choice([1.0, 2.0]), "ks": 2.0, "kp": 0.4, "kp_in": rng.choice([0.2, 0.4]), "kp_out": rng.choice([0.4, 0.7]),
+                   "m": rng.uniform(0.15, 0.3) if fl == "water" else rng.uniform(0.35, 0.6), "fluid": fl, "conc": 0.0 if fl == "water" else 30.0, "kind": "cx",
+                   "r_oo": r_oo, "r_oi": r_oi, "r_io": r_io, "r_ii": r_io * 0.85, "via_manager": k % 2 == 0})
     return cs
 
 
@@ -82,9 +93,17 @@ def oracle(chk, c, o):
         chk.violation("to-single", c, {"volumes_used": [o["vf"], o["vp"]], "from_the_geometry": [vf_i, vp_i]}, "fluid and pipe-wall volume per metre of the original exchanger")
     if abs(o["rp"] / rp_i - 1) > 1e-9:
         chk.violation("to-single", c, {"pipe_resistance_used": o["rp"], "from_the_geometry": rp_i}, "pipe-wall resistance of the original exchanger (outer pipe wall for a coaxial exchanger)")
-    # combined convective-plus-pipe resistance of the equivalent tube (convective part: the implementation's own film coefficient)
+    # combined convective-plus-pipe resistance of the equivalent tube.  Double U-tube: the convective part as the conversion defines it
+    # (the implementation's film coefficient).  Coaxial: the resistance between the annulus fluid and the outer face of the outer pipe,
+    # film coefficient of the outer pipe's inner wall straight from pygfunction for the requested numbers
     n += 1
-    want_fp = o["rc"] + rp_i
+    if c["kind"] == "cx" and "h_outer_wall" in o:
+        want_fp = 1.0 / (o["h_outer_wall"] * 2 * math.pi * c["r_oi"]) + rp_i
+        if abs(o["R_fp_orig"] / want_fp - 1) > 1e-9:
+            chk.violation("to-single", c, {"R_fp_of_the_exchanger_object": o["R_fp_orig"], "from_the_requested_numbers": want_fp},
+                          "the exchanger's own fluid-to-outer-wall resistance is that of the requested geometry, conductivities and flow")
+    else:
+        want_fp = o["rc"] + rp_i
     if abs(o["eq_R_fp"] / want_fp - 1) > 1e-4:          # the root solve on the pipe conductivity stops at about 1e-5 relative
         # the listed defect: the root lies outside the documented bracket [k_p'/100, 10 k_p'] and solve_root clamps to its end
         kpp = math.log(o["eq_r_out"] / o["eq_r_in"]) / (2 * math.pi * 2 * rp_i)
